@@ -16,6 +16,9 @@ ASSUME PrintT(<<"STATS", ToJson([seedWF |-> WF(Seed), reach1 |-> Cardinality(R1)
 ASSUME WF(Seed)
 ASSUME \A p \in All : Exact(p[1], p[2])
 ASSUME \A S \in R1 : DiffSpec(S, S) = {}
+\* C19: the skip filter never leaks a disabled kind and keeps every other kind, for every single disabled kind and for "all drops"
+Drops == {"DropTable", "DropColumn", "DropIndex", "DropFK"}
+ASSUME \A p \in Pairs1 : \A K \in { {k} : k \in KindsOf(DiffSpec(p[1], p[2])) } \cup {Drops} : SkipSound(p[1], p[2], K)
 \* descriptor classes exhibited by the exported pairs (seed adequacy is measured, not assumed)
 Classes == UNION { UNION { { <<x.k, "-", {}>> } \cup (IF x.k = "ModifyTable" THEN { <<y.k, "-", y.f>> : y \in x.ch } ELSE {}) : x \in DiffSpec(p[1], p[2]) } : p \in All }
 ASSUME PrintT(<<"CLASSES", Cardinality(Classes)>>)
